@@ -1,7 +1,7 @@
 #!/bin/bash
 # C11: `move --dry-run` announces a move the real run refuses because the target exists
 # (and the printed `mv` would overwrite the existing target file).
-CHECKOUT=${1:-/tmp/hunt/n2}
+CHECKOUT=${1:-/repo}
 F=$CHECKOUT/target/debug/fclones
 D=$(mktemp -d); trap 'rm -rf "$D"' EXIT
 cd "$D"; mkdir t; echo data > t/a; echo data > t/b
